@@ -154,3 +154,74 @@ def build(reg):
         reg.add(column(nm, getter, kind, fmt))
     reg.add(Contract('file_data_mapper_lst', PROP, pre=lambda C: [('cell-non-null', C.val('c').ref > 0)], post=type_id_post, var_lambda='type_id', name='file_data_mapper_lst["type_id"]', assigns=[]))
     lemmas(reg)
+
+
+# ------------------------------------------------------------------------------------------------ bounded native check (floating point)
+# The contracts above are in exact arithmetic.  The numbering is also exercised natively in IEEE doubles on the real solver
+# (empty population; the real save_mesh and the real time advance of the integrator are called in the order run_iteration calls them) for a fixed list of (dt, S) pairs.  This is a
+# BOUNDED stand-in (stated bound: the listed pairs, 400 iterations each); it is reported under bounded_checks, never as proved.
+NUMBERING_DRIVER = r'''
+#include "solver.hpp"
+#include "cell.hpp"
+#include <cstdio>
+#include <cstdlib>
+int main(int argc, char** argv){
+  double dt = atof(argv[1]), S = atof(argv[2]); int n = atoi(argv[3]);
+  global_simulation_parameters p; p.output_folder_path_ = std::string(argv[4]); p.time_step_ = dt; p.sampling_period_ = S; p.simulation_duration_ = 1e9;
+  p.damping_coefficient_ = 1; p.min_edge_len_ = 1; p.contact_cutoff_adhesion_ = 1; p.contact_cutoff_repulsion_ = 1; p.enable_edge_swap_operation_ = false;
+  // one static tetrahedron so that the mesh writer has something to write; a static cell is not moved by the integrator
+  std::vector<double> pos = {0,0,0, 1,0,0, 0,1,0, 0,0,1};
+  std::vector<unsigned> faces = {0,2,1, 0,1,3, 1,2,3, 0,3,2};
+  auto ct = std::make_shared<cell_type_parameters>(); ct->face_types_.push_back(face_type_parameters()); ct->bulk_modulus_ = 1; ct->mass_density_ = 1;
+  cell_ptr c = std::make_shared<cell>(pos, faces, 0, ct);
+  c->initialize_cell_properties(false);
+  c->is_static_ = true;
+  solver s(p, {c}, 1, true, false);
+  unsigned last = 0; int gaps = 0;
+  for(int i = 0; i < n; i++){
+    // the two statements of run_iteration that matter for the numbering, called on the real objects
+    if(!s.time_integrator_ptr_->is_step_tmp()) s.save_mesh();
+    s.time_integrator_ptr_->update_nodes_positions(s.cell_lst_);
+    unsigned f = s.file_number_;
+    if(f != last){ if(f != last + 1){ printf("GAP dt=%s S=%s iteration %d: file %u follows file %u\n", argv[1], argv[2], i, f, last); gaps++; } last = f; }
+  }
+  printf("files 1..%u, %d gap(s)\n", last, gaps);
+  return gaps ? 1 : 0;
+}
+'''
+PAIRS = [('1e-7', '1e-7'), ('2.5e-7', '2.5e-7'), ('1e-3', '1e-3'), ('1e-7', '2e-7'), ('1e-7', '2.5e-7'), ('1e-8', '3e-8'), ('1e-7', '1.7e-7'), ('0.1', '0.3')]
+
+
+def extra_checks(run):
+    import native, tempfile, shutil, json, os
+    out = []
+    for dt, S in (PAIRS if run.tier == 'thorough' else PAIRS[:5]):
+        d = tempfile.mkdtemp(prefix='verif_c19_')
+        try:
+            code, txt = native.run_driver(NUMBERING_DRIVER, [dt, S, '400', d], timeout=300)
+        finally:
+            shutil.rmtree(d, ignore_errors=True)
+        name = 'C19/bounded/file-numbering-in-doubles[dt=%s,S=%s]' % (dt, S)
+        rec = {'name': name, 'bound': '400 iterations of the real solver (empty population), dt=%s, sampling period=%s, IEEE doubles' % (dt, S),
+               'result': 'no gap' if code == 0 else ('gap in the file numbers' if code == 1 else 'driver failed (%d)' % code), 'output': txt[-400:]}
+        if code == 1:
+            rp = os.path.join(os.path.dirname(os.path.dirname(os.path.abspath(__file__))), 'replays', 'C19-bounded-numbering-%s-%s.json' % (dt, S))
+            os.makedirs(os.path.dirname(rp), exist_ok=True)
+            json.dump({'property': 'C19', 'obligation': name, 'native': {'args': [dt, S, '400'], 'output': txt}, 'confirmed': True}, open(rp, 'w'), indent=1)
+            rec.update({'violation': True, 'replay': rp, 'confirmed': True})
+        out.append(rec)
+    return out
+
+
+EXPLANATION = ("save_mesh: the file number becomes floor(t/S)+1, a pair of mesh files is written exactly when the number changes and at most once per "
+               "call (mesh_writer::write by contract); lemmas: with 0 < dt <= S one step raises floor(t/S) by at most one (no gaps, exact "
+               "arithmetic) and the last number is within one of T/S+1; run_iteration (every callee 'any effect' except on the solver's own "
+               "counters): statistics are recorded iff iteration % 50 == 0, the mesh output is considered once per iteration, one integration step "
+               "per iteration (time advance: C03), iteration counter +1; run: the loop exits only when t >= T or no cell is left, final statistics "
+               "written once; statistics columns: the lambdas registered under cell_id, type_id, area, volume, target_volume, pressure format "
+               "exactly that attribute of the cell (format_number as an uninterpreted function of value and format). Bounded stand-in (not "
+               "proof): the numbering is run natively in doubles on the real solver for a list of (dt, S) pairs.")
+ASSUMPTIONS = ["exact reals in the contracts; the floating-point behaviour of the numbering is only sampled by the bounded native check",
+               "callees of run_iteration do not write the solver's iteration counter, component pointers or the integrator's tmp flag (assumed frames)",
+               "format_number / sprintf and the iostream output are not interpreted: 'parseable', 'as many fields as the header' and the printed precision are not decided"]
+UNVERIFIED = ["row / field structure of the statistics table (iostream), mesh_writer (C16 is not applicable)", "the in-memory statistics writer beyond the shared column table"]
